@@ -370,20 +370,23 @@ impl<F: Write + Seek> Directory<F> {
                 // The predecessor's parent adopts the predecessor's left
                 // subtree, and the predecessor adopts the removed entry's
                 // left subtree.
+                // (Each link is written to the file before it is changed in
+                // memory: if the write fails, the call is reported as failed
+                // and may be repeated, so memory must not run ahead.)
                 let pred_left = self.dir_entry(predecessor_id).left_sibling;
-                self.dir_entry_mut(pred_parent_id).right_sibling = pred_left;
                 let mut sector =
                     self.seek_within_dir_entry(pred_parent_id, 72)?;
                 sector.write_le_u32(pred_left)?;
-                self.dir_entry_mut(predecessor_id).left_sibling =
-                    left_sibling;
+                self.dir_entry_mut(pred_parent_id).right_sibling = pred_left;
                 let mut sector =
                     self.seek_within_dir_entry(predecessor_id, 68)?;
                 sector.write_le_u32(left_sibling)?;
+                self.dir_entry_mut(predecessor_id).left_sibling =
+                    left_sibling;
             }
-            self.dir_entry_mut(predecessor_id).right_sibling = right_sibling;
             let mut sector = self.seek_within_dir_entry(predecessor_id, 72)?;
             sector.write_le_u32(right_sibling)?;
+            self.dir_entry_mut(predecessor_id).right_sibling = right_sibling;
             predecessor_id
         };
         // TODO: recolor nodes
@@ -393,22 +396,22 @@ impl<F: Write + Seek> Directory<F> {
         stream_ids.pop();
         if let Some(&sibling_id) = stream_ids.last() {
             if self.dir_entry(sibling_id).left_sibling == stream_id {
-                self.dir_entry_mut(sibling_id).left_sibling = replacement_id;
                 let mut sector = self.seek_within_dir_entry(sibling_id, 68)?;
                 sector.write_le_u32(replacement_id)?;
+                self.dir_entry_mut(sibling_id).left_sibling = replacement_id;
             } else {
                 debug_assert_eq!(
                     self.dir_entry(sibling_id).right_sibling,
                     stream_id
                 );
-                self.dir_entry_mut(sibling_id).right_sibling = replacement_id;
                 let mut sector = self.seek_within_dir_entry(sibling_id, 72)?;
                 sector.write_le_u32(replacement_id)?;
+                self.dir_entry_mut(sibling_id).right_sibling = replacement_id;
             }
         } else {
-            self.dir_entry_mut(parent_id).child = replacement_id;
             let mut sector = self.seek_within_dir_entry(parent_id, 76)?;
             sector.write_le_u32(replacement_id)?;
+            self.dir_entry_mut(parent_id).child = replacement_id;
         }
         self.free_dir_entry(stream_id)?;
         Ok(())
